@@ -33,6 +33,8 @@ ASSUMPTIONS = [
     "scope-for-line is checked at the first line/offset of statements directly in a scope body (lines shared by several scopes are ambiguous)",
 ]
 BUDGET = {"quick": (4000, 240), "thorough": (100000, 2700)}
+# thorough tier: rope modules instrumented for the coverage-guided (atheris) stage, see vlib/fuzzworker.py
+FUZZ_MODULES = ["rope.base.pyscopes", "rope.base.pyobjectsdef", "rope.base.pynamesdef", "rope.base.builtins", "rope.base.codeanalyze"]
 
 FEATURE_PREDICATES = {
     "pep695": "pep695_type_params",
